@@ -303,3 +303,21 @@ func (c *Clause) visible(prop string) bool {
 	}
 	return false
 }
+
+// mentionsGhost reports whether any clause of the contract talks about the
+// ghost call counter g ("epoch": Signer.Sign / crypto.Signer.Sign / ecdsa.Sign
+// invocations, "vepoch": Verifier.Verify invocations). A contract that does not
+// mention a counter promises to leave it unchanged, and that promise is checked
+// when the function itself is verified.
+func (c *Contract) mentionsGhost(g string) bool {
+	if c.Extern {
+		return false
+	}
+	re := regexp.MustCompile(`(^|[^a-z])` + g + `\(`)
+	for _, cl := range c.Clauses {
+		if re.MatchString(cl.Src) {
+			return true
+		}
+	}
+	return false
+}
